@@ -5,7 +5,7 @@ import sys
 sys.path.insert(0, os.path.join(os.path.dirname(os.path.abspath(__file__)), "..", "lib"))
 sys.path.insert(0, os.path.join(os.path.dirname(os.path.abspath(__file__)), "..", "translator"))
 from ksiverif.runner import Config, Engine  # noqa: E402
-from ksiverif import core, sig as S  # noqa: E402
+from ksiverif import core, pki, pubfile as PF, sig as S  # noqa: E402
 from ksiverif.gen import hx, tlv  # noqa: E402
 import tables  # noqa: E402
 
@@ -81,6 +81,13 @@ def gen(rng, tier):
             base = S.build(rng, anchor=None)
             base.extra = tlv(tag, rng.randbytes(n), nc=1, fwd=rng.random() < 0.5)
             yield "h %s s c v:internal:-:0 s c" % hx(base.enc())
+    # octets behind the signature's own end, one octet missing: not a signature (what is accepted must re-serialize to itself)
+    for _ in range(4 if not big else 40):
+        base = S.build(rng, anchor=rng.choice([None, "pub", "auth"]))
+        raw = base.enc()
+        for more in (b"\x00", b"\x01\x00", rng.randbytes(rng.randrange(1, 40)), tlv(0x0f, b"x", nc=1), raw[:20]):
+            yield "h %s s c v:internal:-:0 s" % hx(raw + more)
+        yield "h %s s c" % hx(raw[:-1])
     # same level asked twice, different levels alternating: the memo must never answer for the wrong start level
     for _ in range(10 if not big else 100):
         base = S.build(rng, nchains=rng.choice([1, 2, 3]), first_lc=rng.choice([3, 7, 20]), anchor=None)
@@ -89,6 +96,28 @@ def gen(rng, tier):
         rng.shuffle(lv)
         ops = ["v:internal:-:%d" % x for x in lv]
         yield "h %s %s" % (hx(base.enc()), " ".join(ops + ["s"]))
+    # an application's own one-rule policy (calendar input = aggregation of the chains from the document's level): no earlier
+    # rule has aggregated the chains from level 0, so the first answer is the one that is memoised
+    for _ in range(10 if not big else 100):
+        base = S.build(rng, nchains=rng.choice([1, 2, 3]), first_lc=rng.choice([3, 7, 20]), with_cal=True, anchor=rng.choice([None, "pub"]))
+        lc = base.chains[0].links[0].lc
+        lv = [0, lc, 1, 0, 2, lc, 0]
+        if rng.random() < 0.5: rng.shuffle(lv)
+        yield "h %s %s" % (hx(base.enc()), " ".join(["v:calin:-:%d" % x for x in lv] + ["s"]))
+    # the publications file a context answers from is the one configured now, not one fetched under an earlier URL
+    EMAIL = pki.OIDS["emailAddress"]
+    def signed_file(pubs):
+        body = PF.MAGIC + PF.header() + b"".join(PF.pub(tt, im) for tt, im in sorted(pubs))
+        return body + PF.sigrec(pki.sign(body))
+    for _ in range(3 if not big else 30):
+        base = S.build(rng, with_cal=True, anchor="pub")
+        others = [(base.pub[0] - 86400 * 30, S.H(1, b"earlier")), (base.pub[0] + 86400 * 30, S.H(1, b"later"))]
+        fa, fb = signed_file(others + [base.pub]), signed_file(others)
+        fc = signed_file(others + [(base.pub[0], S.H(1, b"another hash for that time"))])
+        U = lambda f: "u:%s:%s:%s" % (hx(f), EMAIL, hx(pki.SUBJECT["emailAddress"].encode()))   # noqa: E731
+        v = "v:pubfile:-:0"
+        yield "h %s %s" % (hx(base.enc()), " ".join([U(fa), v, U(fb), v, "s", U(fa), v, U(fc), v, v, "c"]))
+        yield "h %s %s" % (hx(base.enc()), " ".join([U(fc), v, U(fa), v, "a:pubfile:-:0", U(fb), "a:pubfile:-:0", "s"]))
     # the repository's samples: a few operations on each
     res = os.path.join(core.REPO, "test", "resource", "tlv")
     if os.path.isdir(res):
@@ -109,7 +138,7 @@ CONFIG.props_module = "KsiVerif.Props.C11"
 CONFIG.required_theorems = ["reparse_flatten", "parse_serialize_canonical", "aggrMemo_transparent", "runMemo_eq_runPure", "history_eq_fresh",
                              "history_from_parse"]
 CONFIG.translators = [tables.gen_templates, tables.gen_hashalgs, tables.gen_policies]
-CONFIG.engines = [Engine("c11", ["exec_c11.c"], "drv_c11", gen, trivial=trivial)]
+CONFIG.engines = [Engine("c11", ["exec_c11.c"], "drv_c11", gen, trivial=trivial, env={"VERIF_PKI_DIR": os.path.join(core.VERIF, ".build", "pki")})]
 CONFIG.rule = ("op lines from one PRNG (VERIF_SEED): one signature (hashlib-built: consistent, or with a wrong chain time / calendar input / root, or with an "
                "unknown non-critical element; plus the repository's .ksig samples) parsed once in one context with a logger installed, then a history of "
                "6..60 operations on that object: serialize, clone+serialize, verify under any of the seven predefined policies through either entry point "
